@@ -79,7 +79,7 @@ def make_pair(rng, n, scale, kind):
     elif kind == "halfturn":
         B = A @ half_turn(rng) + np.array([[rng.gauss(0, 1) for _ in range(3)] for _ in range(n)]) * scale * rng.choice([0, 0, 1e-3, 0.03])
     elif kind == "nearhalf":
-        R = half_turn(rng) @ rand_rot_small(rng, rng.choice([1e-3, 1e-2, 0.1]))
+        R = half_turn(rng) @ rand_rot_small(rng, rng.choice([1e-5, 3e-5, 1e-4, 1e-3, 1e-2, 0.1]))
         B = A @ R
     else:
         raise ValueError(kind)
@@ -141,9 +141,14 @@ def run(ctx):
         frame = rng.randrange(nref)
         offA = np.array([rng.uniform(-1, 1) for _ in range(3)]) * rng.choice([0, 3, 60])
         offB = np.array([rng.uniform(-1, 1) for _ in range(3)]) * rng.choice([0, 3, 60])
-        sel_mode = rng.choice(["none", "none", "same", "diff"]) if n >= 6 else "none"
+        sel_mode = rng.choice(["none", "none", "same", "diff", "slice"]) if n >= 6 else "none"
+        big = (k % 40 == 17)                                  # a large system: N * Rg^2 beyond 2e6 nm^2 (lambda^6 beyond the float32 range)
+        if big:
+            n, scale, sel_mode, nfr, nref, frame = 20000, 12.0, "none", 1, 1, 0
         # full systems: n_tot atoms; the pair lives on the selected atoms
         extra = rng.choice([0, 2, 5]) if sel_mode != "none" else 0
+        if sel_mode == "slice":
+            extra = rng.choice([2, 5])
         n_tot = n + extra
         tgt = np.zeros((nfr, n_tot, 3)); ref = np.zeros((nref, n_tot, 3))
         if sel_mode == "none":
@@ -151,6 +156,10 @@ def run(ctx):
             selA = selB = np.arange(n)
         elif sel_mode == "same":
             ai = np.array(rng.sample(range(n_tot), n)); ri = None
+            selA = selB = ai
+        elif sel_mode == "slice":                             # the selection handed to superpose as a slice object (a view, not a copy)
+            a0 = rng.choice([0, rng.randrange(extra + 1)])
+            ai = np.arange(a0, a0 + n); ri = None
             selA = selB = ai
         else:
             ai = np.array(rng.sample(range(n_tot), n)); ri = np.array(rng.sample(range(n_tot), n))
@@ -204,7 +213,7 @@ def run(ctx):
         ts = T(tgt, n_tot); tr = T(ref, n_tot)
         ts.time = np.arange(nfr) * 2.0
         try:
-            ret = ts.superpose(tr, frame=frame, atom_indices=ai, ref_atom_indices=ri, parallel=par)
+            ret = ts.superpose(tr, frame=frame, atom_indices=slice(int(ai[0]), int(ai[-1]) + 1) if sel_mode == "slice" else ai, ref_atom_indices=ri, parallel=par)
             sup = np.array(ts.xyz, dtype=np.float64)
         except Exception as e:
             viol("superpose|raises|" + sel_mode, "superpose raised %s: %s" % (type(e).__name__, e), rp)
@@ -233,7 +242,7 @@ def run(ctx):
                 viol("rmsd|precentered", "md.rmsd(precentered=True) = %.7g but the minimum is %.7g" % (r_pc[f], rm), rp)
             # model certificate
             coords = " ".join(rat(x) for x in tgt[f, selA].ravel()) + " " + " ".join(rat(x) for x in ref[frame, selB].ravel())
-            if n <= 300 or rng.random() < 0.3:
+            if n <= 300 or (n <= 5000 and rng.random() < 0.3):
                 reqs.append("qcp %d %s %s %s" % (n, rat(r[f] ** 2), rat(max(tol, 1e-12) * n / 2), coords))
                 meta.append((k, f, desc, rp, r[f], rm, gaprel < 4e-3))
             # superpose checks
